@@ -5,8 +5,8 @@ package main
 // function. An entry that matches nothing fails the run ("stale exception").
 type Exception struct {
 	Rule, Construct, Func string
-	Reason               string
-	Props                []string // properties whose checks may generate the obligation
+	Reason                string
+	Props                 []string // properties whose checks may generate the obligation
 }
 
 var exceptions = []Exception{
